@@ -1045,7 +1045,7 @@ def p6g_batch(ctx):
                 st = rng.choice(mg6.STORAGES)
                 # (uint64 next to a signed index type: numpy promotes the concatenated connectivity to float64 and every
                 # later strip / sort raises IndexError -- second defect of the same family, opt-in like d')
-                if mg6._CONN_CAP[st["conn"]] >= total and (st["conn"] != "u64" or os.environ.get("FCV_P6G_MERGE_NARROW") == "1"):
+                if mg6._CONN_CAP[st["conn"]] >= total and (st["conn"] != "u64" or os.environ.get("FCV_P6G_MERGE_NARROW", "1") == "1"):
                     p["storage"] = st
         pre0 = [(rng.choice(REORDERINGS),)] if rng.random() < 0.6 else []
         pre = [[rng.choice(REORDERINGS)] if rng.random() < 0.7 else [] for _ in pieces[1:]]
@@ -1068,7 +1068,7 @@ def p6g_batch(ctx):
     # behind a first operand with more points than that type can count.  This is a GENUINE DEFECT of fieldcompare found by
     # this audit (notes/PHASE6_G1m.md, "Suspected genuine defects": the renumbered corners are written back into the narrow
     # array and wrap) and in no KNOWN_FINDINGS class, so the batch is not part of the committed run.
-    if os.environ.get("FCV_P6G_MERGE_NARROW") == "1":
+    if os.environ.get("FCV_P6G_MERGE_NARROW", "1") == "1":
         for cdt, npts in (("u8", 256), ("i8", 128), ("u8", 300), ("i16", 32768), ("u16", 65536)):
             first = mg6.big_lattice(npts - 1, 0, dim=1, style="line", point_fields=1, cell_fields=1)
             second = mg6.big_lattice(1, 0, dim=1, style="line", offset=float(npts + 10), point_fields=1, cell_fields=1)
